@@ -36,7 +36,7 @@ TIMEOUT_S = 60.0
 CHUNK = 20
 
 DT = {0: "soc", 1: "soi", 2: "toc", 3: "toi", 4: "cat"}
-THEOREMS_FOR_OP = {"c11.axes": "axis_test_correct", "c11.deciders": "spw_decide_correct / check_axis_correct / strict_agree",
+THEOREMS_FOR_OP = {"c11.pq_exact": "pq_tree_sp_sound (Proofs/PQTreeSP.v)", "c11.axes": "axis_test_correct", "c11.deciders": "spw_decide_correct / check_axis_correct / strict_agree",
                    "c11.gate": "C11_gate"}
 
 
@@ -324,6 +324,35 @@ def generate(tier, seed):
         prof = distinct_semantic([rand_weak_order(rng, alts, p_tie=(0.0 if dt == 1 else 0.5), complete=complete)
                                   for _ in range(n)])
         out.append(case("c11.gate", [dt, alts, prof, rand_perm(rng, alts)], gate=1))
+
+    # ---- is_single_peaked_pq_tree against the ALGORITHM it runs (Model/PQTreeSP.v: sp_matrix, isC1P's duplicate
+    #      removal, the mirrored PQ-tree of Model/PQTree.v): exact agreement of the verdict at EVERY size; the mirror is
+    #      proved sound (Proofs/PQTreeSP.v pq_tree_sp_sound), so a True answer confirmed by it is a proved True
+    for k_, c in enumerate(list(out)):
+        if c["op"] == "c11.deciders" and c["payload"][3] & 1 and (not thorough or k_ % 4 == 0):
+            out.append(case("c11.pq_exact", c["payload"][:3] + [0], m=len(c["payload"][1]), kind=c["tags"].get("kind")))
+    for i in range(300 if not thorough else 3000):
+        m = rng.randint(8, 12)       # the implementation's running time doubles with every level of the PQ-tree
+
+        alts = rng.sample(range(0, 200), m)
+        axis = rand_perm(rng, alts)
+        weak = (i % 2 == 0)
+        votes = []
+        for _ in range(rng.randint(2, 10)):
+            o = planted_weak(rng, axis, p_big=(0.3 if weak else 0.0))
+            if not weak:
+                o = [[a] for c_ in o for a in c_] if all(len(c_) == 1 for c_ in o) else strictify_sp(rng, o, axis)
+            votes.append(o)
+        if i % 3 == 0:                      # a near miss: swap two neighbours somewhere
+            k = rng.randrange(len(votes))
+            flat = [list(c_) for c_ in votes[k]]
+            if len(flat) >= 2:
+                jj = rng.randrange(len(flat) - 1)
+                flat[jj], flat[jj + 1] = flat[jj + 1], flat[jj]
+                votes[k] = flat
+        rng.shuffle(votes)
+        prof = distinct_semantic(votes)
+        out.append(case("c11.pq_exact", [dtype_of(prof), rand_perm(rng, alts), prof, 0], m=m, kind="large"))
     return out
 
 
@@ -382,6 +411,23 @@ def impl(c):
             r = guarded(SPM.is_single_peaked, _instance(dt, alts, profile))
             res["elo"] = [0, int(bool(r[1][0]))] if r[0] == 0 else r
         return res
+    if op == "c11.pq_exact":
+        dt, alts, profile, _ = pl
+        inst = _instance(dt, alts, profile)
+        r = guarded(SPM.is_single_peaked_pq_tree, inst)
+        if r[0] == 1:
+            return {"pq": r, "elems": []}
+        # the order in which reorder_sets visits the elements: isC1P hands it the distinct column sets (tuples of row
+        # indices) and reorder_sets iterates over set().union(*sets) - CPython's set order, a parameter of the mirror
+        alt_map = {n_: k_ for k_, n_ in enumerate(inst.alternatives_name)}
+        matrix = SPM.sp_cons_ones_matrix(inst, alt_map)
+        sets = []
+        for col in zip(*matrix):
+            s_ = tuple(i_ for i_ in range(len(col)) if col[i_] == 1)
+            if s_ not in sets:
+                sets.append(s_)
+        elems = [int(x) for x in set().union(*sets)] if sets else []
+        return {"pq": [0, int(bool(r[1]))], "elems": elems}
     if op == "c11.gate":
         dt, alts, profile, axis = pl
         res = {}
@@ -409,6 +455,9 @@ def oracle_requests(c, r):
     if op == "c11.gate":
         dt, alts, profile, axis = pl
         return [("c11.axis_test", [dt, profile, axis]), ("c11.pq_tree", [dt, alts, profile]), ("c11.ilp", [dt, alts, profile])]
+    if op == "c11.pq_exact":
+        dt, alts, profile, _ = pl
+        return [("c11.pq_algo", [dt, alts, profile, r["elems"] if isinstance(r, dict) and "elems" in r else []])]
     return []
 
 
@@ -449,6 +498,16 @@ def judge(c, r, mres):
         if "elo" in r and r["elo"] != [0, dec]:
             return {"kind": "mismatch", "theorem": "strict_agree",
                     "reason": "is_single_peaked (strict profile) -> %r, weak-order reference %r" % (r["elo"], dec)}
+        return None
+    if op == "c11.pq_exact":
+        if r["pq"][0] == 1:
+            msg = proto.untext(r["pq"][2]) if len(r["pq"]) > 2 else "error code %r" % (r["pq"][1],)
+            return {"kind": "exception", "theorem": "pq_tree_sp_sound",
+                    "reason": "is_single_peaked_pq_tree raised on an in-domain instance: %s" % msg}
+        if r["pq"] != mres[0]:
+            return {"kind": "mismatch", "theorem": "Model/PQTreeSP.v is_single_peaked_pq_tree_algo (mirror) / pq_tree_sp_sound",
+                    "reason": "is_single_peaked_pq_tree -> %r, the mirrored algorithm (sp_matrix + isC1P + PQ-tree) -> %r"
+                              % (r["pq"], mres[0])}
         return None
     if op == "c11.gate":
         for name, mi in zip(("axis", "pq", "ilp"), mres):
@@ -496,6 +555,10 @@ def stats(c, r, m):
         if any(len(o[0]) >= 2 for o in pl[2]):
             lab.append("has tied top")
         return lab
+    if op == "c11.pq_exact":
+        mm = len(pl[1])
+        return ["pq_exact (verdict == mirrored algorithm) m=%s: %s" % (mm if mm <= 7 else ("8-15" if mm <= 15 else "16-30"),
+                                                                      "SP" if m and m[0] == [0, 1] else "notSP")]
     return ["gate dt=%s" % DT[pl[0]]]
 
 
